@@ -10,6 +10,8 @@ using namespace vf;
 
 static Fields gen(Tape &t) {
   Fields f;
+  LongMode lm(t);
+  if (lm.on()) f.seti("long", 1);
   int arm = 0;
   u32s s = g_noise(t, /*wideExtras=*/true, &arm);
   f.set32("text", s);
